@@ -57,7 +57,7 @@ func inclusive(c *core.Ctx, rule, key string, g *cfgq.Graph, body ast.Node, x, l
 					continue
 				}
 			}
-			if o, w := g.OnlyViaFact(p, fact); !o {
+			if o, w := onlyVia(g, p, fact); !o {
 				ok, wit = false, w
 			}
 		}
@@ -220,14 +220,14 @@ func checkpointKey(c *core.Ctx) {
 			okJ := false
 			if judgeParam != nil {
 				b2 := pat.Binds{"_j": judgeParam, "_slot": bd["_slot"]}
-				okJ, _ = g.OnlyViaFact(p, func(f cfgq.Fact) bool {
+				okJ, _ = onlyVia(g, p, func(f cfgq.Fact) bool {
 					return f.Val && (pat.Expr("_j(int(_slot))").Match(dinfo, f.Expr, b2) != nil || pat.Expr("_j(_slot)").Match(dinfo, f.Expr, b2) != nil)
 				})
 			}
 			inverted := false
 			if judgeParam != nil && !okJ {
 				b2 := pat.Binds{"_j": judgeParam, "_slot": bd["_slot"]}
-				inverted, _ = g.OnlyViaFact(p, func(f cfgq.Fact) bool {
+				inverted, _ = onlyVia(g, p, func(f cfgq.Fact) bool {
 					return !f.Val && (pat.Expr("_j(int(_slot))").Match(dinfo, f.Expr, b2) != nil || pat.Expr("_j(_slot)").Match(dinfo, f.Expr, b2) != nil)
 				})
 			}
@@ -262,7 +262,7 @@ func checkpointKey(c *core.Ctx) {
 	found := false
 	for _, b := range fg.CFG.Blocks {
 		cond := cfgq.CondOf(b)
-		if !b.Live || cond == nil || !cfgq.EdgeEstablishes(b, 0, func(f cfgq.Fact) bool { return f.Val && isPrefixTest(f.Expr) }) {
+		if !b.Live || cond == nil || !edgeHas(fg, b, 0, func(f cfgq.Fact) bool { return f.Val && isPrefixTest(f.Expr) }) {
 			continue
 		}
 		found = true
@@ -275,8 +275,26 @@ func checkpointKey(c *core.Ctx) {
 			"a key with prefix CheckpointKey must be rejected (FilterKey returns true): the per-shard checkpoint keys redis-shake-checkpoint-xxxx would otherwise be synced as user data", w...)
 	}
 	if !found {
-		c.Check("R4.filter", "FilterKey/checkpoint-prefix-rejected", filterKey.Decl.Pos(), false,
-			"FilterKey has no strings.HasPrefix(key, CheckpointKey) rejection: the per-shard checkpoint keys (CheckpointKey-xxxx chosen by ChoseSlotInRange) pass the key filter and are synced as user data")
+		// positive evidence only: nothing in the package tests a key against the CheckpointKey prefix
+		anyTest := false
+		for _, f := range filterKey.Pkg.Syntax {
+			ast.Inspect(f, func(n ast.Node) bool {
+				if call, ok := n.(*ast.CallExpr); ok && core.IsFunc(core.CalleeFunc(finfo, call), "strings", "", "HasPrefix") {
+					for _, a := range call.Args {
+						if core.ObjOf(finfo, a) == cpk {
+							anyTest = true
+						}
+					}
+				}
+				return true
+			})
+		}
+		if anyTest {
+			c.Undecidedf("R4.filter", "FilterKey/checkpoint-prefix-rejected", filterKey.Decl.Pos(), "cannot see FilterKey rejecting keys with prefix CheckpointKey")
+		} else {
+			c.Check("R4.filter", "FilterKey/checkpoint-prefix-rejected", filterKey.Decl.Pos(), false,
+				"nothing in the filter package tests strings.HasPrefix(key, CheckpointKey): the per-shard checkpoint keys (CheckpointKey-xxxx chosen by ChoseSlotInRange) pass the key filter and are synced as user data")
+		}
 	}
 	k := 0
 	for _, p := range fg.Points(func(n ast.Node) bool {
@@ -290,9 +308,13 @@ func checkpointKey(c *core.Ctx) {
 		return hit
 	}) {
 		k++
-		ok, w := fg.OnlyViaFact(p, func(f cfgq.Fact) bool { return !f.Val && isPrefixTest(f.Expr) })
-		c.Check("R4.filter", "FilterKey/prefix-before-lists", p.Node().Pos(), ok,
-			"the CheckpointKey-prefix rejection must come before any white/blacklist decision: a whitelist matching the checkpoint key would let it through", w...)
+		ok, w := onlyVia(fg, p, func(f cfgq.Fact) bool { return !f.Val && isPrefixTest(f.Expr) })
+		if ok || found {
+			c.Check("R4.filter", "FilterKey/prefix-before-lists", p.Node().Pos(), ok,
+				"the CheckpointKey-prefix rejection must come before any white/blacklist decision: a whitelist matching the checkpoint key would let it through", w...)
+		} else {
+			c.Undecidedf("R4.filter", "FilterKey/prefix-before-lists", p.Node().Pos(), "no CheckpointKey-prefix test seen before the key lists are consulted")
+		}
 	}
 	if k == 0 {
 		c.Undecidedf("R4.filter", "FilterKey/prefix-before-lists", filterKey.Decl.Pos(), "FilterKey consults no key list")
